@@ -83,6 +83,30 @@ type control struct {
 	args   slip.List
 	argPos int
 	stop   bool
+	parent *control // enclosing control while processing a block
+}
+
+// column returns the number of bytes output since the last line break. When
+// processing a block the output of the enclosing controls counts as well.
+func (c *control) column() (col int) {
+	for p := c; p != nil; p = p.parent {
+		if i := bytes.LastIndexAny(p.out, "\n\r\f"); 0 <= i {
+			return col + len(p.out) - i - 1
+		}
+		col += len(p.out)
+	}
+	return
+}
+
+// lastOut returns the last byte output, looking through the enclosing
+// controls when the block has not output anything yet.
+func (c *control) lastOut() (b byte, ok bool) {
+	for p := c; p != nil; p = p.parent {
+		if 0 < len(p.out) {
+			return p.out[len(p.out)-1], true
+		}
+	}
+	return
 }
 
 type floatFormatter struct {
@@ -401,7 +425,7 @@ func (c *control) dirAmp(colon, at bool, params []any) {
 			c.invalidDirParam(c.str, c.pos)
 		}
 	}
-	if 0 < len(c.out) && c.out[len(c.out)-1] == '\n' {
+	if last, ok := c.lastOut(); ok && last == '\n' {
 		n--
 	}
 	c.checkCount(n)
@@ -465,6 +489,7 @@ func (c *control) dirCase(colon, at bool, params []any) {
 	c2 := *c
 	c2.out = make([]byte, 0, pos-c.pos)
 	c2.end = pos
+	c2.parent = c
 	c2.process()
 
 	c.pos = pos + 2 // past ~)
@@ -742,9 +767,10 @@ func (c *control) dirProc(colon, at bool, params []any) {
 		c.argPos++
 	}
 	c2 := control{
-		scope: c.scope,
-		str:   ctrl,
-		end:   len(ctrl),
+		scope:  c.scope,
+		str:    ctrl,
+		end:    len(ctrl),
+		parent: c,
 	}
 	if at {
 		c2.args = c.args
@@ -1396,7 +1422,6 @@ func (c *control) dirT(colon, at bool, params []any) {
 	var (
 		target int // target offset from 'from'
 		from   int // from the start of the line
-		start  int // start of line
 	)
 	if at {
 		for len(spaces) < colnum {
@@ -1404,26 +1429,14 @@ func (c *control) dirT(colon, at bool, params []any) {
 			colnum -= len(spaces)
 		}
 		c.out = append(c.out, spaces[:colnum]...)
-		start = bytes.LastIndexAny(c.out, "\n\r\f")
-		if start < 0 {
-			from = len(c.out)
-		} else {
-			start++
-			from = len(c.out) - start
-		}
+		from = c.column()
 		if from == from/colinc*colinc {
 			target = from
 		} else {
 			target = from/colinc*colinc + colinc
 		}
 	} else {
-		start = bytes.LastIndexAny(c.out, "\n\r\f")
-		if start < 0 {
-			from = len(c.out)
-		} else {
-			start++
-			from = len(c.out) - start
-		}
+		from = c.column()
 		target = colnum * colinc
 		if target < from {
 			target = from/colinc*colinc + colinc
@@ -1608,6 +1621,7 @@ func (c *control) subProcess(str string) {
 		end:    len(str),
 		args:   c.args,
 		argPos: c.argPos,
+		parent: c,
 	}
 	c2.process()
 	c.out = append(c.out, c2.out...)
@@ -1620,6 +1634,7 @@ func (c *control) dirIter(colon, at bool, params []any) {
 	c2 := *c
 	c2.out = make([]byte, 0, pos-start)
 	c2.end = pos
+	c2.parent = c
 	var atLeastOnce bool
 	c.pos = pos + 2
 	// If terminated by ~:}...
